@@ -11,7 +11,8 @@
    "blocker"  p-1 carries a weak or strong blocker on x (!<x-2, !!<x-2, !x, in several classes);
               x-1 in slot 0, x-2 in slot 0 or in a slot of its own; nothing / x-1 / x-2 installed;
               p alone or together with x as targets: blockers against installed packages whose
-              unblocked versions sit in the same or in ANOTHER slot.
+              unblocked versions sit in the same or in ANOTHER slot; optionally an installed q with
+              the same blocker that p depends on (the blocker is registered twice).
    "versions" one name a with a lower and a higher version that differ in digit count or in a later
               component (9/10, 1.9/1.10, 2.9/2.10), each placed in the main repository, an
               overlay or the installed database; b depends on a: candidates from several
@@ -80,10 +81,14 @@ X2Slots == {"0", "2"}
 VdbChoicesX(s2) == {<<>>, <<P("vdb", "x", <<1>>, "0", NoDeps)>>, <<P("vdb", "x", <<2>>, s2, NoDeps)>>}
 BlockTargets == {<<A("p", "any", AnyV, "none")>>, <<A("x", "any", AnyV, "none"), A("p", "any", AnyV, "none")>>}
                 \cup (IF Level = "tiny" THEN {} ELSE {<<A("p", "any", AnyV, "none"), A("x", "any", AnyV, "none")>>})
+\* optionally an installed q carries the very same blocker and p depends on q first: the blocker is
+\* then already registered when p brings it along
+WithQ(d) == [d EXCEPT !.rdepend = <<One(A("q", "any", AnyV, "none"))>> \o @]
 BlockerFamily ==
   UNION {{Case("blocker",
-               <<P("src", "p", <<1>>, "0", d), P("src", "x", <<1>>, "0", NoDeps), P("src", "x", <<2>>, s2, NoDeps)>> \o vx, t) :
-             d \in BlockMenu, vx \in VdbChoicesX(s2), t \in BlockTargets} : s2 \in X2Slots}
+               <<P("src", "p", <<1>>, "0", IF wq THEN WithQ(d) ELSE d), P("src", "x", <<1>>, "0", NoDeps),
+                 P("src", "x", <<2>>, s2, NoDeps)>> \o vx \o (IF wq THEN <<P("vdb", "q", <<1>>, "0", d)>> ELSE <<>>), t) :
+             d \in BlockMenu, vx \in VdbChoicesX(s2), t \in BlockTargets, wq \in BOOLEAN} : s2 \in X2Slots}
 
 (* ---------------- versions ---------------- *)
 VersionPairs == {<<<<9>>, <<10>>>>, <<<<1, 9>>, <<1, 10>>>>}
